@@ -196,7 +196,9 @@ def _candidate_nicks(cand_names: Dict[Candidate, str]) -> Dict[Candidate, str]:
     all_initials = []
     for cand_name in cand_names.values():
         cand_initials = _name_to_initials(cand_name)
-        if cand_initials in all_initials:    # duplicate, fall back to trivial
+        if (not cand_initials or cand_initials == 'end'
+                or cand_initials in all_initials):
+            # unusable or duplicate, fall back to trivial
             return _ordinal_candidate_nicks(cand_names.keys())
         else:
             all_initials.append(cand_initials)
@@ -204,12 +206,16 @@ def _candidate_nicks(cand_names: Dict[Candidate, str]) -> Dict[Candidate, str]:
 
 
 def _name_to_initials(name: str) -> str:
-    return ''.join(part[0].lower() for part in re.split(r'\W', name))
+    return ''.join(
+        part[0].lower() for part in re.split(r'\W+', name) if part
+    )
 
 
 def _ordinal_candidate_nicks(cand_names: Collection[Candidate]
                              ) -> Dict[Candidate, str]:
-    n_letters = int(math.ceil(math.log(len(cand_names)) / math.log(26)))
+    n_letters = 1
+    while 26 ** n_letters < len(cand_names):
+        n_letters += 1
     nicks = {}
     for cand_i, cand in enumerate(cand_names):
         nick_letters = []
